@@ -301,34 +301,43 @@ func MatchList(name string, delim rune, reference, pattern string) bool {
 }
 
 func matchList(name, delim, pattern string) bool {
-	// TODO: optimize
+	// matched[j] reports whether the pattern prefix processed so far matches
+	// name[:j]. Each pattern byte is processed once against the whole name,
+	// which keeps the cost proportional to len(pattern) * len(name) instead
+	// of backtracking for each wildcard.
+	matched := make([]bool, len(name)+1)
+	next := make([]bool, len(name)+1)
+	matched[0] = true
 
-	i := strings.IndexAny(pattern, "*%")
-	if i == -1 {
-		// No more wildcards
-		return name == pattern
-	}
-
-	// Get parts before and after wildcard
-	chunk, wildcard, rest := pattern[0:i], pattern[i], pattern[i+1:]
-
-	// Check that name begins with chunk
-	if len(chunk) > 0 && !strings.HasPrefix(name, chunk) {
-		return false
-	}
-	name = strings.TrimPrefix(name, chunk)
-
-	// Expand wildcard
-	var j int
-	for j = 0; j < len(name); j++ {
-		if wildcard == '%' && delim != "" && strings.HasPrefix(name[j:], delim) {
-			break // Stop on delimiter if wildcard is %
+	for i := 0; i < len(pattern); i++ {
+		alive := false
+		switch ch := pattern[i]; ch {
+		case '*', '%':
+			// A wildcard extends a match with any number of bytes, except
+			// that % cannot go past the start of a delimiter
+			reachable := false
+			for j := 0; j <= len(name); j++ {
+				if matched[j] {
+					reachable = true
+				}
+				next[j] = reachable
+				alive = alive || reachable
+				if reachable && ch == '%' && delim != "" && strings.HasPrefix(name[j:], delim) {
+					reachable = false
+				}
+			}
+		default:
+			next[0] = false
+			for j := 0; j < len(name); j++ {
+				next[j+1] = matched[j] && name[j] == ch
+				alive = alive || next[j+1]
+			}
 		}
-		// Try to match the rest from here
-		if matchList(name[j:], delim, rest) {
-			return true
+		if !alive {
+			return false
 		}
+		matched, next = next, matched
 	}
 
-	return matchList(name[j:], delim, rest)
+	return matched[len(name)]
 }
